@@ -180,7 +180,7 @@ E2E_HIST = gen.GenCfg(min_steps=4, max_steps=14, max_exchanges=2, max_holders=2,
 def strategy2(tier: str) -> Any:
     """End-to-end tier (rp2v/e2e.py): multi-asset files through the console entry point; the same predicate is applied to
     figures read back from rp2_full_report.ods and related to the generated rows by unique id."""
-    return e2e.file_strategy(E2E_HIST, countries=("us", "us", "generic", "ie"), flavours=("mixed", "mixed", "fully_sold"))
+    return e2e.file_strategy(E2E_HIST, countries=("us", "us", "generic", "ie"), flavours=("mixed", "mixed", "fully_sold", "same_second_trades", "tied_fills"))
 
 
 def minimize(case: Dict[str, Any], clause: str) -> Dict[str, Any]:
